@@ -1735,6 +1735,11 @@ impl Bgi {
     }
 
     pub fn set_viewport(&mut self, x0: i32, y0: i32, x1: i32, y1: i32) {
+        // the view port is clipped to the canvas
+        let x0 = x0.clamp(0, (self.window.width - 1).max(0));
+        let y0 = y0.clamp(0, (self.window.height - 1).max(0));
+        let x1 = x1.clamp(x0, (self.window.width - 1).max(0));
+        let y1 = y1.clamp(y0, (self.window.height - 1).max(0));
         self.viewport = Rectangle::from(x0, y0, x1 - x0, y1 - y0);
     }
     pub fn clear_viewport(&mut self) {
